@@ -152,8 +152,10 @@ func VH_packet_length_field() {
 	vAssert(err == nil && int(lenField[0])|int(lenField[1])<<8|int(lenField[2])<<16 == L, "the length prefix deciphers to the little-endian content length")
 	got, err := rcv.V2ReceivePacket(nil)
 	vAssert(err == nil && len(got) == L, "the receiver returns contents of the sent length")
-	if L > 0 {
+	if L > 1 {
 		vAssert(got[0] == 0xa1 && got[L-1] == 0xb2, "contents delivered unchanged")
+	} else if L == 1 {
+		vAssert(got[0] == 0xb2, "contents delivered unchanged") // first and last byte coincide
 	}
 	vAssert(pipe.pos == len(pipe.buf), "the receiver consumed exactly the packet")
 	vReach("end")
